@@ -559,7 +559,7 @@ impl<'a, 'tcx> Cx<'a, 'tcx> {
 
 fn const_bytes<'tcx>(tcx: TyCtxt<'tcx>, val: ConstValue, ty: Ty<'tcx>) -> Option<Vec<u8>> {
     // &str / &[u8]
-    if let ConstValue::Slice { .. } = val {
+    if let ConstValue::Slice { .. } | ConstValue::Indirect { .. } = val {
         let is_bytes = match ty.kind() {
             ty::Ref(_, inner, _) => match inner.kind() {
                 ty::Str => true,
@@ -573,7 +573,9 @@ fn const_bytes<'tcx>(tcx: TyCtxt<'tcx>, val: ConstValue, ty: Ty<'tcx>) -> Option
                 return Some(b.to_vec());
             }
         }
-        return None;
+        if let ConstValue::Slice { .. } = val {
+            return None;
+        }
     }
     // &[u8; N]
     if let ty::Ref(_, inner, _) = ty.kind() {
